@@ -657,6 +657,16 @@ builtin("<core::slice::IterMut<'a, T> as core::iter::Iterator>::next")(_slice_it
 @builtin("core::slice::<impl [T]>::chunks_exact_mut", "core::slice::<impl [T]>::chunks_exact")
 def _chunks_exact(w, st, fr, path, targs, args, dty):
     r, n = args[0], args[1]
+    if isinstance(n, T):
+        # documented panic: chunk size 0
+        c = w.simplify(st, tm.cmp("ne", n, K(0, n.bits)))
+        if c.is_const():
+            if c.val == 0:
+                return Diverge("chunk size must be non-zero")
+        else:
+            st.sites.append({"kind": "slice:chunk-size-nonzero", "fn": fr.fn.path, "loc": "?", "cond": c, "expected": 1, "nfacts_before": len(st.facts),
+                             "stack": [f.fn.path for f in st.frames]})
+            w.assume(st, c, 1)
     if not isinstance(r, Ref) or not isinstance(n, T) or not n.is_const():
         return NOT_HANDLED
     ln = _arr_len(w, st, r)
